@@ -489,6 +489,15 @@ class MockIncludeDirective:
             )
             return codeblock.run()
 
+        # guard against a file that (directly or indirectly) includes itself
+        include_log = self.renderer.md_env.setdefault("myst_include_log", [])
+        if str(path) in include_log:
+            raise DirectiveError(
+                4,
+                f'Directive "{self.name}": circular inclusion: '
+                + " > ".join([*include_log, str(path)]),
+            )
+
         # Here we perform a nested render, but temporarily setup the document/reporter
         # with the correct document path and lineno for the included file.
         source = self.renderer.document["source"]
@@ -508,12 +517,15 @@ class MockIncludeDirective:
                     source_dir,
                     path.parent,
                 )
+            include_log.append(str(path))
             self.renderer.nested_render_text(
                 file_content,
                 startline + 1,
                 heading_offset=self.options.get("heading-offset", 0),
             )
         finally:
+            if include_log and include_log[-1] == str(path):
+                include_log.pop()
             self.renderer.document["source"] = source
             self.renderer.reporter.source = rsource
             self.renderer.md_env.pop("relative-images", None)
